@@ -380,7 +380,14 @@ func (rg *liveRequestGenerator) GenerateRequests(ctx context.Context, r *Range) 
 			case <-ctx.Done():
 				return
 			case <-time.After(rg.rescanTimeout):
-				requests, _ = rg.delegate.GenerateRequests(ctx, r)
+				next, err := rg.delegate.GenerateRequests(ctx, r)
+				if err != nil {
+					// a pass that failed to start is reported and retried after the next timeout,
+					// requests is still the closed channel of the previous pass
+					writeRequest(ctx, out, &Request{Err: err})
+					continue
+				}
+				requests = next
 			}
 		}
 	}()
